@@ -332,6 +332,16 @@ TableSpec realize(const TableDesc &d) {
 std::vector<TableDesc> simplify_desc(const TableDesc &d) {
 	std::vector<TableDesc> out;
 	size_t nd = d.naxes.size();
+	// big steps first: every axis halved at once, orders lowered with them
+	{
+		TableDesc c = d;
+		bool changed = false;
+		for (size_t i = 0; i < nd; i++) if (c.naxes[i] > 1) { c.naxes[i] = std::max<uint64_t>(1, c.naxes[i] / 2); changed = true; }
+		uint32_t cap = 64;
+		for (size_t i = 0; i < nd; i++) { if (c.order[i] + 1 > c.naxes[i]) c.order[i] = (uint32_t)c.naxes[i] - 1; cap = std::min(cap, c.order[i]); }
+		if (c.single_order) for (auto &o : c.order) o = cap;
+		if (changed && nd > 1) out.push_back(c);
+	}
 	// fewer dimensions
 	if (nd > 1) {
 		for (size_t drop = nd; drop-- > 0;) {
@@ -752,13 +762,19 @@ bool apply_corruption(Bytes &img, const Json &op, std::string &note) {
 		if (h.naxis.empty()) { note = "primary has no axes"; return false; }
 		size_t ax = (size_t)((uint64_t)(op.geti("axis") < 1 ? 0 : op.geti("axis") - 1) % h.naxis.size());
 		int64_t n = op.geti("n");
-		if (n < 0 || n > 4 * std::max<int64_t>(h.naxis[ax], 4)) { note = "size out of range"; return false; }
+		if (n < 0 || h.naxis[ax] > (int64_t(1) << 32) || n > 4 * std::max<int64_t>(h.naxis[ax], 4)) { note = "size out of range"; return false; }
 		if (n == h.naxis[ax]) { note = "unchanged"; return false; }
 		int ci = find_card(h, "NAXIS" + std::to_string(ax + 1));
 		if (ci < 0) { note = "no NAXISn card"; return false; }
 		uint64_t cnt = 1;
-		for (size_t i = 0; i < h.naxis.size(); i++) cnt *= (uint64_t)(i == ax ? n : h.naxis[i]);
-		uint64_t bytes = cnt * (uint64_t)(h.bitpix < 0 ? -h.bitpix : h.bitpix) / 8;
+		for (size_t i = 0; i < h.naxis.size(); i++) {
+			uint64_t f = (uint64_t)(i == ax ? n : h.naxis[i]);
+			if (f && cnt > (uint64_t(1) << 40) / f) { note = "too large"; return false; }
+			cnt *= f;
+		}
+		uint64_t bpp = (uint64_t)(h.bitpix < 0 ? -h.bitpix : h.bitpix) / 8;
+		if (bpp > 8) { note = "odd BITPIX"; return false; }
+		uint64_t bytes = cnt * bpp;
 		if (bytes > (64u << 20)) { note = "too large"; return false; }
 		Bytes data(img.begin() + (long)h.data_off, img.begin() + (long)std::min<size_t>(img.size(), h.data_off + h.data_len));
 		Bytes nd((size_t)bytes);
@@ -793,7 +809,7 @@ bool apply_corruption(Bytes &img, const Json &op, std::string &note) {
 		// resize_ext: a consistent 1-d double image of another length
 		if (h.bitpix != -64 || h.naxis.size() != 1) { note = "not a 1-d double image"; return false; }
 		int64_t n = op.geti("n");
-		if (n < 0 || n > 4 * std::max<int64_t>(h.naxis[0], 8)) { note = "size out of range"; return false; }
+		if (n < 0 || h.naxis[0] > (int64_t(1) << 24) || n > 4 * std::max<int64_t>(h.naxis[0], 8)) { note = "size out of range"; return false; }
 		if (n == h.naxis[0]) { note = "unchanged"; return false; }
 		int ci = find_card(h, "NAXIS1");
 		if (ci < 0) { note = "no NAXIS1"; return false; }
